@@ -13,6 +13,32 @@ CONSTANTS Seed,        \* integer salt for data contents
 
 D(n, s) == Seeded(n, Seed + s)
 
+\* ------------------------------------------------------------------ contents with edges
+\* The wire format and the key schedule treat every octet alike; code may not (zero octets trimmed as padding or as a terminator, octets
+\* >= 0x80 through a signed type, white space trimmed from a name, letters folded, a big-endian number losing leading zeros).  Every
+\* octet-string field of the pools therefore also takes contents whose FIRST / LAST / ALL octets are such values.
+EdgeClasses == << "lead0", "trail0", "zeros", "ones", "lead80", "trail80", "sp", "tab", "crlf", "nbsp", "upper", "lower", "mid0", "lead00", "trail00" >>
+EdgeOctet(cls) == CASE cls \in {"lead0", "trail0", "zeros", "mid0", "lead00", "trail00"} -> 0 [] cls = "ones" -> 255 [] cls \in {"lead80", "trail80"} -> 128
+                    [] cls = "sp" -> 32 [] cls = "tab" -> 9 [] cls = "crlf" -> 10 [] cls = "nbsp" -> 160 [] cls = "upper" -> 74 [] OTHER -> 106
+\* letters only (case folding), for "upper" / "lower"
+Letters(n, base, s) == [i \in 1..n |-> base + ((s + i * 5) % 26)]
+\* body octets that are themselves none of the special values (so that exactly the edge carries the property)
+Plain(n, s) == [i \in 1..n |-> 33 + ((s * 7 + i * 11) % 31)]        \* 0x21..0x3f: printable, no letters, no space
+Edge(cls, n, s) ==
+  LET o == EdgeOctet(cls) IN
+  IF n = 0 THEN << >>
+  ELSE CASE cls \in {"zeros", "ones"} -> Const(n, o)
+         [] cls = "upper" -> Letters(n, 65, s)
+         [] cls = "lower" -> Letters(n, 97, s)
+         [] cls \in {"lead0", "lead80"} -> << o >> \o Plain(n - 1, s)
+         [] cls \in {"trail0", "trail80"} -> Plain(n - 1, s) \o << o >>
+         [] cls = "lead00" -> IF n < 3 THEN Const(n, 0) ELSE << 0, 0 >> \o Plain(n - 2, s)
+         [] cls = "trail00" -> IF n < 3 THEN Const(n, 0) ELSE Plain(n - 2, s) \o << 0, 0 >>
+         [] cls = "mid0" -> IF n < 3 THEN Plain(n, s) ELSE Plain(1, s) \o Const(n - 2, 0) \o Plain(1, s + 1)
+         [] cls = "nbsp" -> IF n < 5 THEN Const(n, o) ELSE << 194, 160 >> \o Plain(n - 4, s) \o << 194, 133 >>     \* U+00A0 ... U+0085
+         [] OTHER -> IF n < 3 THEN Const(n, o) ELSE << o >> \o Plain(n - 2, s) \o << o >>                       \* sp, tab, crlf: both ends
+EdgeSet == { EdgeClasses[i] : i \in 1..Len(EdgeClasses) }
+
 Tr(tt, tid, attr, at, av, avl) == [c |-> tt, tt |-> tt, tid |-> tid, attr |-> attr, at |-> at, av |-> av, avl |-> avl]
 TrNone(tt, tid)        == Tr(tt, tid, "none", 0, 0, << >>)
 TrTV(tt, tid, at, av)  == Tr(tt, tid, "tv", at, av, << >>)
@@ -23,7 +49,14 @@ Hdr(i) == CASE i = 1 -> [ispi |-> Ramp(8, 1), rspi |-> Zeros(8), maj |-> 2, min 
             [] i = 3 -> [ispi |-> D(8, 2), rspi |-> D(8, 3), maj |-> 0, min |-> 0, xt |-> 0, flags |-> 32, mid |-> << 128, 0, 0, 1 >>]
             [] i = 4 -> [ispi |-> Zeros(8), rspi |-> Ramp(8, 200), maj |-> 2, min |-> 1, xt |-> 37, flags |-> 40, mid |-> << 0, 1, 0, 0 >>]
             [] i = 5 -> [ispi |-> D(8, 4), rspi |-> D(8, 5), maj |-> 1, min |-> 8, xt |-> 36, flags |-> 16, mid |-> << 0, 0, 255, 254 >>]
-Hdrs == 1..5
+            \* values strictly inside the ranges: an initiator SPI below 2^32, message IDs with a single octet set (0x00200005, 256, 2^29),
+            \* exchange types 35..37, flags with one bit
+            [] i = 6 -> [ispi |-> << 0, 0, 0, 0, 0, 6, 247, 8 >>, rspi |-> D(8, 6), maj |-> 2, min |-> 0, xt |-> 37, flags |-> 8, mid |-> << 0, 32, 0, 5 >>]
+            [] i = 7 -> [ispi |-> Zeros(7) \o << 1 >>, rspi |-> Zeros(8), maj |-> 2, min |-> 0, xt |-> 35, flags |-> 40, mid |-> << 0, 0, 1, 0 >>]
+            [] i = 8 -> [ispi |-> << 32, 32, 32, 32, 0, 0, 0, 0 >>, rspi |-> << 0, 0, 0, 0, 46, 46, 46, 46 >>, maj |-> 2, min |-> 0, xt |-> 36, flags |-> 32, mid |-> << 32, 0, 0, 0 >>]
+            [] i = 9 -> [ispi |-> D(8, 7), rspi |-> Const(8, 255), maj |-> 2, min |-> 0, xt |-> 38, flags |-> 0, mid |-> << 0, 0, 32, 46 >>]
+            [] i = 10 -> [ispi |-> Const(4, 255) \o Zeros(4), rspi |-> D(8, 8), maj |-> 2, min |-> 0, xt |-> 43, flags |-> 8, mid |-> << 127, 255, 255, 255 >>]
+Hdrs == 1..10
 Msg(h, ps) == Hdr(h) @@ [payloads |-> ps]
 
 \* ------------------------------------------------------------------ per-kind payload pools (D-form)
@@ -38,10 +71,24 @@ Ns    == { [k |-> "N", proto |-> p, ntype |-> nt, spi |-> D(sn, 19), data |-> D(
              sn \in {0, 4, 8, 255}, n \in {0, 1, 40} }
 Ds    == { [k |-> "D", proto |-> 1, spisz |-> 0, num |-> 0, spis |-> << >>] }
          \cup { [k |-> "D", proto |-> p, spisz |-> 4, num |-> n, spis |-> [i \in 1..n |-> D(4, i + 29)]] : p \in {2, 3}, n \in {0, 1, 2, 3, 50, 300} }
+         \* lists in which an SPI repeats (a list is a list: [A A B], [A B A], [A A], zero / all-ones SPIs)
+         \cup { [k |-> "D", proto |-> 3, spisz |-> 4, num |-> Len(l), spis |-> [i \in 1..Len(l) |-> IF l[i] = 0 THEN Zeros(4) ELSE IF l[i] = 9 THEN Const(4, 255) ELSE D(4, l[i] + 29)]] :
+                   l \in { << 1, 1, 2 >>, << 1, 2, 1 >>, << 1, 1 >>, << 1, 2, 2, 3, 1 >>, << 0, 9, 0 >>, << 0 >>, << 2, 1, 1, 1 >> } }
 
 Sel4(p, sp, ep, s) == [tst |-> 7, proto |-> p, sp |-> sp, ep |-> ep, sa |-> D(4, s), ea |-> D(4, s + 100)]
 Sel6(p, sp, ep, s) == [tst |-> 8, proto |-> p, sp |-> sp, ep |-> ep, sa |-> D(16, s), ea |-> D(16, s + 100)]
-SelLists == { << Sel4(0, 0, 65535, 31) >>,
+\* addresses an implementation may look INTO although a selector only carries them: all zeros / ones, loopback, an IPv4 address in
+\* IPv6 clothes (::ffff:a.b.c.d, ::a.b.c.d), edges of zero octets
+Addr4s == { Zeros(4), Const(4, 255), << 127, 0, 0, 1 >>, << 0, 0, 0, 1 >>, << 10, 0, 0, 0 >>, << 224, 0, 0, 251 >> }
+Addr6s == { Zeros(16), Const(16, 255), Zeros(15) \o << 1 >>, Zeros(10) \o << 255, 255, 10, 0, 0, 1 >>, Zeros(12) \o << 192, 168, 0, 1 >>,
+            << 254, 128 >> \o Zeros(13) \o << 1 >>, << 32, 1, 13, 184 >> \o Zeros(12), Zeros(10) \o << 255, 255, 255, 255, 255, 255 >> }
+SelA(tst, sa, ea) == [tst |-> tst, proto |-> 6, sp |-> 1, ep |-> 65534, sa |-> sa, ea |-> ea]
+SelAddrLists == { << SelA(7, a, a) >> : a \in Addr4s } \cup { << SelA(8, a, a) >> : a \in Addr6s }
+                 \cup { << SelA(8, Zeros(16), Const(16, 255)), SelA(7, Zeros(4), Const(4, 255)) >>,
+                        << SelA(8, Zeros(10) \o << 255, 255, 10, 0, 0, 1 >>, Zeros(10) \o << 255, 255, 10, 0, 0, 254 >>), SelA(8, Zeros(15) \o << 1 >>, Zeros(15) \o << 1 >>) >>,
+                        \* the same selector twice, and a list in which a selector repeats after another one
+                        << Sel4(6, 256, 1, 33), Sel4(6, 256, 1, 33) >>, << Sel6(17, 1, 2, 34), Sel4(6, 256, 1, 33), Sel6(17, 1, 2, 34), Sel6(17, 1, 2, 34) >> }
+SelLists == SelAddrLists \cup { << Sel4(0, 0, 65535, 31) >>,
               << Sel6(17, 1, 256, 32) >>,
               << Sel4(6, 256, 1, 33), Sel6(255, 65535, 0, 34) >>,
               << Sel6(1, 2, 3, 35), Sel4(47, 4660, 22136, 36), Sel4(0, 65535, 65535, 37) >>,
@@ -93,6 +140,22 @@ EapOthers ==
            vid \in {0, 1, 10415, 16777215}, vt \in { << 0, 0, 0, 3 >>, << 255, 255, 255, 255 >> }, n \in {0, 2, 100} }
   \cup { Eap5GStart(3), Eap5GNas(4, D(1, 75)), Eap5GNas(5, D(300, 76)) }
 EAPs == { [k |-> "EAP", eap |-> e] : e \in EapAkas \cup EapOthers }
+
+\* every octet-string field of every payload kind with edge contents (see Edge above), sizes 1, 2 and 9
+EdgePayloads(e, e16) ==
+  { [k |-> "KE", grp |-> 14, data |-> e], [k |-> "IDi", idt |-> 2, data |-> e], [k |-> "IDr", idt |-> 3, data |-> e],
+    [k |-> "CERT", enc |-> 4, data |-> e], [k |-> "CERTREQ", enc |-> 4, data |-> e], [k |-> "AUTH", meth |-> 2, data |-> e],
+    [k |-> "NONCE", data |-> e], [k |-> "V", data |-> e],
+    [k |-> "N", proto |-> 3, ntype |-> 16393, spi |-> e, data |-> << 1, 2 >>], [k |-> "N", proto |-> 0, ntype |-> 16390, spi |-> << >>, data |-> e],
+    [k |-> "CP", cft |-> 2, attrs |-> << CA(1, e), CA(8, << >>), CA(3, e) >>],
+    [k |-> "SA", props |-> << [num |-> 1, proto |-> 3, spi |-> e, tr |-> << TrTV(1, 12, 14, 128), TrTLV(1, 12, 300, e), TrNone(3, 2) >>] >>],
+    [k |-> "EAP", eap |-> [code |-> 2, id |-> 128, m |-> "identity", data |-> e]],
+    [k |-> "EAP", eap |-> [code |-> 1, id |-> 64, m |-> "notification", data |-> e]],
+    [k |-> "EAP", eap |-> [code |-> 2, id |-> 32, m |-> "nak", data |-> e]],
+    [k |-> "EAP", eap |-> [code |-> 2, id |-> 16, m |-> "expanded", vid |-> 10415, vtype |-> << 0, 0, 0, 3 >>, data |-> e]],
+    [k |-> "EAP", eap |-> Aka(1, 129, 1, << [t |-> AT_RAND, v |-> e16], [t |-> AT_RES, v |-> IF Len(e) < 4 THEN e16 ELSE e], [t |-> AT_KDF_INPUT, v |-> e] >>)],
+    [k |-> "EAP", eap |-> Aka(2, 200, 1, << [t |-> AT_AUTN, v |-> e16], [t |-> AT_MAC, v |-> e16], [t |-> AT_KDF, v |-> << e16[1], e16[16] >>], [t |-> AT_CHECKCODE, v |-> e16 \o SubSeq(e16, 13, 16)] >>)] }
+EdgeSingles == UNION { EdgePayloads(Edge(c, n, n + 3), Edge(c, 16, n + 5)) : c \in EdgeSet, n \in {1, 2, 9} }
 
 AllSingles == KEs \cup IDs \cup CERTs \cup AUTHs \cup NVs \cup Ns \cup Ds \cup TSs \cup CPs \cup SAs \cup EAPs
 
